@@ -308,7 +308,9 @@ def _gen_op(rng, m, tier):
                 sc = cert() if rng.random() < 0.4 else None
                 if (si, sk, sc) != (None, None, None):
                     break
-            fl = ('i' if si is not None and rng.random() < 0.5 else '') + ('k' if sk is not None and rng.random() < 0.5 else '')
+            # upper case: the Identity / Key object is passed even when it is empty (fixed in /repo: get_signer tests `is None`)
+            fl = (rng.choice('iI') if si is not None and rng.random() < 0.5 else '') + \
+                 (rng.choice('kK') if sk is not None and rng.random() < 0.5 else '')
             sel = ['x', si, sk, sc, fl]
         return _op('gs', sel, loc)
     return _op('ro')
@@ -662,9 +664,9 @@ class _Rig:
                 if si is not None:
                     args['identity'] = self.idname(si)
                     if 'i' in fl.lower():
-                        # An EMPTY Identity / Key object is falsy (a Mapping of length 0) and get_signer then silently
-                        # signs with the default identity (genuine defect, reported; kept out of the generated stream:
-                        # lower-case flags fall back to the name form for an empty object, upper-case ones do not)
+                        # An EMPTY Identity / Key object is falsy (a Mapping of length 0); get_signer used to sign silently
+                        # with the default identity then (fixed in /repo).  Lower-case flags fall back to the name form
+                        # for an empty object, upper-case ones pass the empty object itself.
                         try:
                             o = kc[self.idname(si)]
                             if len(o) > 0 or 'I' in fl:
